@@ -47,6 +47,14 @@ def to_ts(t):
     if k == 'or':
         return '(' + ' | '.join(to_ts(x) for x in t[1]) + ')'
     if k == 'and':
+        # `base & not X` is spelled Exclude<base, X>
+        nots = [x for x in t[1] if x[0] == 'not']
+        if nots:
+            rest = [x for x in t[1] if x[0] != 'not']
+            base = to_ts(rest[0]) if len(rest) == 1 else '(' + ' & '.join(to_ts(x) for x in rest) + ')'
+            for n in nots:
+                base = f'Exclude<{base}, {to_ts(n[1])}>'
+            return base
         return '(' + ' & '.join(to_ts(x) for x in t[1]) + ')'
     if k == 'ref':
         return t[1]
